@@ -425,13 +425,14 @@ def add_array(rng, spec, meta):
     # a consumer of the array members, so that they are part of the DAG
     if rng.random() < 0.7:
         members = [c for row in range_cells(ref) for c in row]
-        consumer = f'{coord(1, 11)}'
+        consumer = f'{coord(1, 13)}'
         if ':' in ref:
             spec['sheets'][0][1][consumer] = f'=SUM({ref})+{members[0]}'
         else:
             spec['sheets'][0][1][consumer] = f'={members[0]}*3'
+        # SUM(ref) reads the array formula's range node (fed by the sources), not the member cells
         meta['formulas'][addr(sheet, consumer)] = {
-            'form': 'cse-consumer', 'deps': [addr(sheet, c) for c in members]}
+            'form': 'cse-consumer', 'deps': sorted(set(deps) | {addr(sheet, members[0])})}
         meta['order'].append(addr(sheet, consumer))
 
 
